@@ -476,6 +476,13 @@ class Engine:
             raise Unsupported(f"python constant {v.val!r} flowing into {t}")
         if isinstance(t, Ty._Real) and isinstance(v.t, Ty._Int):
             return V(Real, [z3.ToReal(v.term)])
+        if isinstance(t, Ty.List) and isinstance(v.t, Ty.Tuple):
+            # a fixed-arity tuple flowing into a slot declared as a sequence of symbolic length
+            parts = [self.coerce(x, t.e) for x in Ty.split(v.t, v.c)]
+            arrs = [z3.K(Ty.IntS, c) for c in (parts[0].c if parts else [z3.IntVal(0)] * len(t.e.sorts()))]
+            for p_, x in enumerate(parts):
+                arrs = [z3.Store(a, p_, c) for a, c in zip(arrs, x.c)]
+            return V(t, [z3.IntVal(len(parts))] + arrs)
         if isinstance(t, Ty.Opt) and not isinstance(v.t, Ty.Opt):
             if isinstance(v.t, Ty._None):
                 return Ty.mk_opt_none(t.t)
@@ -777,6 +784,13 @@ class Engine:
                 return self.alloc(st, V(av.t, [z3.If(n > 0, n, 0)] + arrs))
         if isinstance(op, ast.Add) and isinstance(av, V) and isinstance(bv, V) and isinstance(av.t, Ty.Tuple) and isinstance(bv.t, Ty.Tuple):
             return Ty.mk_tuple(Ty.split(av.t, av.c) + Ty.split(bv.t, bv.c))
+        if isinstance(op, ast.Add) and isinstance(av, V) and isinstance(bv, V) and isinstance(av.t, Ty.List) and isinstance(bv.t, Ty.Tuple):
+            # sequence + (x, y): the elements appended (a tuple of symbolic length is modelled as a list)
+            comps = list(av.c)
+            for part in Ty.split(bv.t, bv.c):
+                pv = self.coerce(part, av.t.e)
+                comps = [comps[0] + 1] + [z3.Store(a, comps[0], c) for a, c in zip(comps[1:], pv.c)]
+            return self.alloc(st, V(av.t, comps))
         if isinstance(op, ast.Add) and isinstance(av, V) and isinstance(bv, V) and isinstance(av.t, Ty.List) and isinstance(bv.t, Ty.List) and len(av.c) == len(bv.c):
             # list (or string) concatenation: a new list
             if len(av.c) == 2 and isinstance(av.t.e, type(Key)):
@@ -1255,7 +1269,8 @@ class Engine:
                     total = total + 1
         for off, ln, f in reversed(pieces):
             body = z3.If(z3.And(off <= q, q < off + ln), f(q), body)
-        return self.alloc(st, V(Ty.List(Key), [z3.simplify(total), z3.Lambda([q], body)]))
+        chain = [p for p in parts if isinstance(p, V)] if all(isinstance(p, V) for p in parts) else None
+        return self.alloc(st, V(Ty.List(Key), [z3.simplify(total), z3.Lambda([q], body)], py=("chain", chain) if chain else None))
 
     # ------------------------------------------------------------ statements
     def exec_block(self, st, stmts):
